@@ -532,18 +532,20 @@ SIG_BYTES = bytes((7 * i + 3) & 0xFF for i in range(64))
 T31, T32 = 2 ** 31 - 1, 2 ** 32 - 1
 
 
-def gen_item(start, stop, step, lhs, rhs, rtype, ttl):
-    """A $GENERATE block and its reference expansion (templates use plain labels)."""
+def gen_item(start, stop, step, lhs, rhs, rtype, ttl, org=None):
+    """A $GENERATE block and its reference expansion (templates use plain labels); `org` is
+    the $ORIGIN in force at the $GENERATE line (default: the zone origin)."""
     exp = []
+    org = O_T if org is None else org
     for i in zt.gen_range(start, stop, step):
-        owner = zt.parse_plain_name(zt.gen_subst(lhs, i), O_T)
+        owner = zt.parse_plain_name(zt.gen_subst(lhs, i), org)
         r = zt.gen_subst(rhs, i)
         if rtype == "A":
             exp.append(zt.A(owner, ttl, r))
         elif rtype == "CNAME":
-            exp.append(zt.CNAME(owner, ttl, zt.parse_plain_name(r, O_T)))
+            exp.append(zt.CNAME(owner, ttl, zt.parse_plain_name(r, org)))
         elif rtype == "PTR":
-            exp.append(zt.PTR(owner, ttl, zt.parse_plain_name(r, O_T)))
+            exp.append(zt.PTR(owner, ttl, zt.parse_plain_name(r, org)))
         else:
             raise AssertionError(rtype)
 
@@ -1178,7 +1180,7 @@ def eval_g(case):
     base = [zt.SOA(O_T, 300, n_("ns1"), n_("hostmaster"), 1, 7200, 900, 1209600, 300),
             zt.NS(O_T, 300, n_("ns1"))]
     ttl = 7200 if tc & 1 else 300
-    g = gen_item(rng[0], rng[1], rng[2], lhs, rhs, rtype, ttl)
+    g = gen_item(rng[0], rng[1], rng[2], lhs, rhs, rtype, ttl, SUB_T if case.get("sub") else None)
     head = []
     if tc & 1:
         head.append("7200")
@@ -1186,7 +1188,7 @@ def eval_g(case):
         head.append("IN")
     line = " ".join(["$GENERATE", zt.gen_range_text(*rng, always_step=bool(case.get("step1"))), lhs]
                     + head + [rtype, rhs])
-    text = zt.render(base, O_T, {}, True) + line + "\n"
+    text = zt.render(base, O_T, {}, True) + ("$ORIGIN b.z.example.\n" if case.get("sub") else "") + line + "\n"
     loader, rel = case["loader"], case["rel"]
     exp = model_snapshot(base + g["expansion"], rel)
     shown = [(zt.gen_subst(lhs, i), zt.gen_subst(rhs, i)) for i in zt.gen_range(*rng)][:4]
@@ -1244,13 +1246,16 @@ def work_g(task, col):
         if rtype == "A" and rng[1] + 3 > 255:
             continue
         for loader, rel in task["loaders"]:
-            for step1 in ((0, 1) if rng[2] == 1 and n % 7 == 0 else (0,)):
+            variants = [(s1, 0) for s1 in ((0, 1) if rng[2] == 1 and n % 7 == 0 else (0,))]
+            if n % 4 == 0:
+                variants.append((0, 1))       # $GENERATE under a mid-file $ORIGIN below the zone origin
+            for step1, sub in variants:
                 case = {"part": "g", "range": list(rng), "lhs": lhs, "rhs": rhs, "type": rtype,
-                        "ttlcls": tc, "loader": loader, "rel": rel, "step1": step1}
+                        "ttlcls": tc, "loader": loader, "rel": rel, "step1": step1, "sub": sub}
                 probs = eval_g(case)
                 col.count("evaluations")
                 col.count("g_generate_lines")
-                col.nontrivial(("g", rng, lhs, rhs, rtype, tc, loader, rel, step1))
+                col.nontrivial(("g", rng, lhs, rhs, rtype, tc, loader, rel, step1, sub))
                 if not probs:
                     col.outcome("g:equal")
                     continue
